@@ -221,7 +221,7 @@ def parity_cases(ctx: Ctx, stats: dict, only: str | None = None, n=None, seed=No
             if only in (None, name):
                 out.append(dict(ev="parity", env=name, **REGION_KEYS, term=False, rew_m=0, atoms={k: bool(v) for k, v in atoms.items()},
                                 _n=n_c, _seed=sd))
-                stats[name] = st
+                stats.setdefault(name, {}).update(st)
     names = [m for m in gym_parity.MUJOCO if only in (None, m)]
     for r in gym_parity.run_mujoco(names, n_m, sd, workers=ctx.pick(6, 11)) if names else []:
         if "raised" in r:
